@@ -104,7 +104,7 @@ def run_predicate(ctx):
     rows = ctx.driver.ask_many([f"row {n} " + " ".join(f"{iv[0]} {iv[1]}" for iv in s) for s in bx])
     lo = np.array([[iv[0] for iv in b] for b in bx])
     hi = np.array([[iv[1] for iv in b] for b in bx])
-    viol = 0
+    first_miss, first_diff = None, None
     for si, (s, row) in enumerate(zip(bx, rows)):
         a = objs[si]
         impl = np.fromiter((a.check_overlap(b) for b in objs), dtype=bool, count=len(objs))
@@ -115,11 +115,16 @@ def run_predicate(ctx):
         # plain oracle, vectorised: closed ranges intersect on every axis / a grid cell is shared
         exp = np.all(np.maximum(lo[si], lo) <= np.minimum(hi[si], hi), axis=1)
         cell = np.all(np.maximum(lo[si], lo) < np.minimum(hi[si], hi), axis=1)
-        if not np.array_equal(impl, exp) and viol < 3:
-            miss = np.flatnonzero(cell & ~impl)                    # prefer a genuine miss
-            k = int(miss[0]) if miss.size else int(np.argmax(impl != exp))
-            ctx.violation({"op": "ov", "s": s, "o": bx[k]}, overlap_fails(s, bx[k]) or "row differs from the box-intersection oracle")
-            viol += 1
+        if not np.array_equal(impl, exp):
+            miss = np.flatnonzero(cell & ~impl)
+            if miss.size and first_miss is None:
+                first_miss = (s, bx[int(miss[0])])
+            if first_diff is None:
+                first_diff = (s, bx[int(np.argmax(impl != exp))])
+    for pair in (first_miss, first_diff):                          # a genuine miss (shared cell, not seen) is reported first
+        if pair is not None:
+            ctx.violation({"op": "ov", "s": pair[0], "o": pair[1]},
+                          overlap_fails(*pair) or "row differs from the box-intersection oracle")
     # symmetry of the implementation on a sample (the oracle comparison above already implies it when it passes)
     for _ in range(200):
         s, o = ctx.rng.choice(bx), ctx.rng.choice(bx)
@@ -206,7 +211,18 @@ def state_of(obj, kind):
 
 
 def run_scene(inp):
-    """returns (tags per object, property detail or None, list of names); tag = loops that applied the object"""
+    """returns (tags per object, property detail or None); tag = loops that applied the object.  A valid scene on
+    which the real code raises (or loses an object) counts as a failure of the property on that input."""
+    try:
+        return _run_scene(inp)
+    except Exception as e:                                   # noqa: BLE001
+        import traceback
+        tb = traceback.extract_tb(e.__traceback__)
+        where = next((f"{fr.filename.split('/src/')[-1]}:{fr.lineno}" for fr in reversed(tb) if "/fdtdx/" in fr.filename), "harness")
+        return ["!"] * len(inp["objects"]), f"place_objects/apply_params/apply raised {type(e).__name__}: {str(e)[:200]} (at {where})"
+
+
+def _run_scene(inp):
     j = J()
     fdtdx, jnp, jax = j["fdtdx"], j["jnp"], j["jax"]
     objs, cfg, cons = build_scene(inp)
@@ -371,11 +387,12 @@ def run(ctx):
     t0 = time.time()
     J()
     t1 = time.time()
-    run_predicate(ctx)
-    t2 = time.time()
+    # the Lean refutation witness of the as-found tree first: a source strictly inside a device
     check_scene(ctx, witness_scene("dipole"), sample=True)
     check_scene(ctx, witness_scene("plane"))
-    n = ctx.scale(14, 120)
+    run_predicate(ctx)
+    t2 = time.time()
+    n = ctx.scale(14, 80)
     for i in range(n):
         check_scene(ctx, gen_scene(ctx.rng, i, ctx.thorough), sample=(i == 0))
     ctx.extra["phase_seconds"] = {"import": round(t1 - t0, 1), "predicate": round(t2 - t1, 1), "scenes": round(time.time() - t2, 1)}
